@@ -440,6 +440,7 @@ def run_real(g, run, rank=None):
                 obs["pause"] = {"node": res.pause.node_name, "out": res.pause.output_param, "value": res.pause.value, "key": res.pause.response_key}
         except Exception as e:  # noqa: BLE001
             obs["status"] = "raised"
+            obs["error_class"] = type(e).__name__
             obs["error"] = err_id(e)
             obs["error_repr"] = f"{type(e).__name__}: {e}"[:300]
             obs["values"] = {}
